@@ -128,8 +128,8 @@ func genC14(r *Rng, idx int, tier string) *World {
 			}
 			deleted = true
 			w.Ops = append(w.Ops, op)
-		case k < 38 && len(ics) < 2:
-			ic := pick(r, []string{"digit", "word"})
+		case k < 38 && len(ics) < 3:
+			ic := pick(r, []string{"digit", "word", "\\d+", "[a-z]+"}) // also: an interceptor registered under the text of a regexp rule already in use
 			if contains(ics, ic) {
 				continue
 			}
@@ -169,7 +169,7 @@ func genC14(r *Rng, idx int, tier string) *World {
 			if r.Pct(25) {
 				host = upperNonASCII(host) // upper-case letters outside ASCII, possibly without any ASCII upper-case letter
 			}
-			switch r.Intn(8) {
+			switch r.Intn(9) {
 			case 0:
 				host += ":8080"
 			case 1:
@@ -180,6 +180,8 @@ func genC14(r *Rng, idx int, tier string) *World {
 				host = "[" + host + "]:443"
 			case 4:
 				host = "[" + host + "]"
+			case 5:
+				host += pick(r, []string{":\uff18\uff10", ":\u0968\u0966", ":http", ":-1", ":8 0"}) // not valid ports
 			}
 			w.Ops = append(w.Ops, Op{K: "match", Req: &Req{Method: "GET", Path: "/", Host: host}})
 		}
@@ -499,7 +501,7 @@ func genC13(r *Rng, idx int, tier string) *World {
 	for i := 0; i < nreq; i++ {
 		q := Req{Method: pick(r, []string{"GET", "GET", "GET", "POST", "OPTIONS", "TRACE"}),
 			Path: pick(r, []string{"", "/v1", "/v2", "/v11", "/v3", "/api"}) + pick(r, []string{"/x", "/x/5", "/y", "/y/zk", "/", "/api/7", "/nope", "/v1/x"}),
-			Host: pick(r, []string{"a.com", "b.com", "zz.c.com", "api.a.com", "d.com", "7.e.com", "other.org", "A.COM:80"})}
+			Host: pick(r, []string{"a.com", "b.com", "zz.c.com", "api.a.com", "d.com", "7.e.com", "other.org", "A.COM:80", "a.com:http", "b.com:80a", "d.com:-1", "api.a.com:"})}
 		if r.Pct(50) {
 			q.Hdr = map[string]string{"Accept": pick(r, []string{"application/json; version=1", "application/json; version=2", "text/html", "application/json; version=3"})}
 		}
